@@ -48,6 +48,8 @@ def gen_cases(tier, seed):
         cases.append({"kind": "QQ", "n": n, "seed": seed, "_cost": 4 ** n / 4})
     for j in range(40 if q else 600):
         cases.append({"kind": "counter", "seed": seed * 100297 + j, "_cost": 20})
+    if not q:
+        cases.append({"kind": "repo-tests", "seed": seed, "_cost": 200})
     return cases
 
 
@@ -98,6 +100,14 @@ def run_case(case):
     from gcmpy.message_passing.equations.clique_equation import clique_equation
     from gcmpy.message_passing.equations.chordless_cycle_equation import chordless_cycle_equation
     from gcmpy.message_passing import number_connected_graphs as ncg
+    if case.get("kind") == "repo-tests":
+        from ..repotests import run as _run_repo_tests
+        res = Result()
+        _run_repo_tests(ID, res)
+        res.nontrivial = True
+        res.digest = "repo-tests"
+        res.sample = {"kind": "repo-tests", "notes": res.notes[:2]}
+        return res
     res = Result()
     rng = random.Random(case["seed"])
     k = case["kind"]
